@@ -98,6 +98,12 @@ def build(ctx, tier="quick"):
     # ---- CREATE DATABASE n
     t0 = s.words(c, "ent:DATABASE", [("KW", "DATABASE"), (nm, "name")])
     s.eps(t0, fin)
+    # ---- CREATE DATABASE n TABLESPACE ts / CREATE SCHEMA n TABLESPACE ts: still ONE entity of the statement's kind (the tablespace is a detail)
+    tsn = pl("ts", ["ts1", "fast", "Ts_Data", "t_9", "users_ts", "Tsp2"])
+    t0 = s.words(c, "ent:DATABASE_TS", [("KW", "DATABASE"), (nm, "name"), ("KW", "TABLESPACE"), (tsn, "ts")])
+    s.eps(t0, fin)
+    t0 = s.words(c, "ent:SCHEMA_TS", [("KW", "SCHEMA"), (nm, "name"), ("KW", "TABLESPACE"), (tsn, "ts")])
+    s.eps(t0, fin)
     # ---- CREATE [BIGFILE|SMALLFILE] [TEMPORARY] TABLESPACE n
     big = lm.custom("BIGFILE", ["BIGFILE", "SMALLFILE"], "WORD")
     tmp = lm.custom("TEMPORARY", ["TEMPORARY", "temporary", "Temporary"], "WORD")
@@ -202,6 +208,10 @@ class EntitiesOracle:
             if "comment" in r:
                 e["comment"] = r["comment"]
             return e, "schema_name"
+        if kind == "ent:DATABASE_TS":
+            return {"database_name": r["name"], "tablespace": TablespaceNamed(r["ts"])}, "database_name"
+        if kind == "ent:SCHEMA_TS":
+            return {"schema_name": r["name"], "tablespace": TablespaceNamed(r["ts"])}, "schema_name"
         if kind == "ent:DATABASE":
             return {"database_name": r["name"]}, "database_name"
         if kind == "ent:TABLESPACE":
@@ -213,6 +223,21 @@ class EntitiesOracle:
             return {"table_name": r["tname"], "columns": ColumnsNamed([(r["a1"], lift(lambda a, b: f"{a}.{b}", r["schema"], r["name"])),
                                                                       (r["a2"], r["name2"])], key=None)}, "table_name"
         raise AnalysisError(f"entities: no expectation for {kind}")
+
+
+class TablespaceNamed:
+    """the tablespace detail of an entity: names the tablespace as written (a plain name or a record carrying it)"""
+
+    def __init__(self, name):
+        self.name = name
+
+    def match(self, actual):
+        if isinstance(actual, dict):
+            return any(deep_eq_safe(v, self.name) for v in actual.values())
+        return deep_eq_safe(actual, self.name)
+
+    def __repr__(self):
+        return f"<tablespace {show(self.name)}>"
 
 
 class ColumnsNamed:
